@@ -719,12 +719,48 @@ func classOf(o op, d string) string {
 	return o.Kind + "/" + kind
 }
 
+// mutatingAlphabet: the state-changing calls only, on names a and m (the full
+// observation after every call still sees everything); used to go one level deeper
+func mutatingAlphabet(nlive, capScopes int) []op {
+	var ops []op
+	for _, o := range alphabet(nlive, capScopes) {
+		switch o.Kind {
+		case "Define", "Set", "DefineGlobal":
+			if (o.Name == "a" || o.Name == "m") && o.Val == 1 {
+				ops = append(ops, o)
+			}
+		case "Delete", "DeleteGlobal":
+			if o.Name == "a" || o.Name == "m" {
+				ops = append(ops, o)
+			}
+		case "DefineType", "DefineGlobalType":
+			if o.Name == "a" && o.Type == "string" {
+				ops = append(ops, o)
+			}
+		case "NewEnv", "Copy", "DeepCopy":
+			ops = append(ops, o)
+		case "NewModule":
+			if o.Name == "m" {
+				ops = append(ops, o)
+			}
+		}
+	}
+	return ops
+}
+
 func run(c *common.Ctx) *common.Result {
 	res := common.NewResult()
 	depth, capScopes := 3, 4
 	if c.Thorough() {
 		depth, capScopes = 4, 5
 	}
+	search(c, res, depth, capScopes, alphabet, "")
+	// one level deeper over the mutating sub-alphabet
+	search(c, res, 5, capScopes, mutatingAlphabet, "deep:")
+	return res
+}
+
+func search(c *common.Ctx, res *common.Result, depth, capScopes int, alpha func(int, int) []op, tag string) {
 	seen := map[[20]byte]bool{}
 	var frontier []node
 	for cfg := 0; cfg < 4; cfg++ {
@@ -755,7 +791,7 @@ func run(c *common.Ctx) *common.Result {
 			if bd != "" {
 				return // already reported when first reached
 			}
-			ops := alphabet(len(base.real), capScopes)
+			ops := alpha(len(base.real), capScopes)
 			local := map[[20]byte]node{}
 			for oi, o := range ops {
 				h := history{Cfg: nd.h.Cfg, Ops: append(append([]op{}, nd.h.Ops...), o)}
@@ -810,13 +846,13 @@ func run(c *common.Ctx) *common.Result {
 		})
 		res.Add("states", int64(len(frontier)))
 		res.Max("depth", int64(d))
-		res.Add(fmt.Sprintf("new_states_depth_%d", d), int64(len(frontier)))
+		res.Max(tag+"depth", int64(d))
+		res.Add(fmt.Sprintf("%snew_states_depth_%d", tag, d), int64(len(frontier)))
 		if len(frontier) > 0 {
 			res.Sample(map[string]interface{}{"depth": d, "history": frontier[len(frontier)/2].h.String()})
 			res.Sample(map[string]interface{}{"depth": d, "history": frontier[len(frontier)-1].h.String()})
 		}
 	}
-	return res
 }
 
 func coverage(c *common.Ctx, r *common.Result) map[string]interface{} {
@@ -825,8 +861,9 @@ func coverage(c *common.Ctx, r *common.Result) map[string]interface{} {
 		"transitions":                   r.Counts["transitions"],
 		"traces_validated_against_impl": r.Counts["transitions"],
 		"max_depth":                     r.GetMax("depth"),
+		"max_depth_state_changing_calls": r.GetMax("deep:depth"),
 		"rule": "breadth-first search over histories of env API calls (≈92 calls per live scope: Define/Set/Get/Delete/DeleteGlobal/DefineGlobal/Addr/DefineType/DefineGlobalType/Type/NewEnv/NewModule/GetEnvFromPath(len≤2)/Copy/DeepCopy/symbol listings/String over names a,b,a.b,m) from four initial configurations (no external lookup, lookup on the root, lookup on a child, root whose value table was created and emptied again); " +
-			"states de-duplicated on the canonical form of the reference model's forest; every transition replays the history on fresh real scopes, executes the call on implementation and model, compares return value / error class and then the whole observable state (symbols, Get and Type of every pool name, on every live scope)",
+			"then one level deeper over the state-changing calls only (Define/Set/DefineGlobal/Delete/DeleteGlobal on a and m, DefineType, NewEnv, NewModule, Copy, DeepCopy); states de-duplicated on the canonical form of the reference model's forest; every transition replays the history on fresh real scopes, executes the call on implementation and model, compares return value / error class and then the whole observable state (symbols, Get and Type of every pool name, on every live scope)",
 		"explanation": "a state is the model forest; a transition is one API call executed on the real env package and on the model in lock-step, so every transition is also a model trace step validated against the implementation",
 	}
 }
@@ -865,7 +902,7 @@ func init() {
 		ID: "C12", Level: "model_checking", Run: run, Coverage: coverage, Replay: replay,
 		Assumptions: []string{
 			"values are int64 1/2, one addressable cell and module scopes; types int64/string; names a, b, a.b, m",
-			"at most 4 (quick) / 5 (thorough) live scope handles; histories up to depth 3 / 4",
+			"at most 4 (quick) / 5 (thorough) live scope handles; histories up to depth 3 / 4 over the full alphabet and depth 5 over the state-changing calls",
 			"error messages are not compared, only error-vs-success and the identity of ErrSymbolContainsDot",
 			"GetEnvFromPath resolves its first element to the nearest enclosing binding that is a module (the walk the code spells out)",
 		},
